@@ -11,7 +11,7 @@ The Go type `queue[K,T]` is a `container/heap` of items ordered by `ScheduledTim
 * `Pop()`   — removes the root;
 * `Remove(key)`.
 
-Two layers, the second refining the first (`KitProofs/Lemmas/Queue.lean`):
+Three layers, each refining the one above (`KitProofs/Lemmas/Queue.lean`, `Lemmas/Heap.lean`):
 
 1. **specification** (`insert` / `remove` / `pop` / `IsHead`): the queue is the list of live items,
    one per key; `Peek` may return *any* item of minimal time.  This is what
@@ -19,8 +19,12 @@ Two layers, the second refining the first (`KitProofs/Lemmas/Queue.lean`):
    (in particular for whatever `container/heap` does with equal times).
 2. **sorted association list** (`SortedQ`): the textbook implementation, FIFO among equal times.
 
-The binary heap with its key index is not modelled; the real heap is tied to layer 1 on every run
-(every head it returns to the loop must be a minimal live item of the model).
+3. **binary heap with stored indices** (`Heap`): the algorithm of `container/heap` as `queue.go`
+   drives it — `Push`+`up`, `Pop` = swap/`down`/remove last, `Remove(i)`, `Fix(i)` — over an array
+   of entries `{value, index}` whose `index` field is maintained by `Swap` exactly as
+   `queueHeap.Swap` does.  The map `items` (key ↦ *queueItem) is modelled as "the entry with that
+   key in the array".  `kitdrv C06` runs this layer against the real `queue` (exact agreement,
+   including ties and the stored indices).
 -/
 namespace Kit.Queue
 
@@ -83,5 +87,108 @@ def pop (q : List (Item κ ν)) : Option (Item κ ν) × List (Item κ ν) := (q
 /-- `Remove(key)`. -/
 def remove (q : List (Item κ ν)) (k : κ) : List (Item κ ν) := Queue.remove q k
 end SortedQ
+
+/-! ## 3. binary heap with stored indices (container/heap + queue.go) -/
+
+namespace Heap
+
+/-- `queueItem`: the value and the index the heap believes it is stored at. -/
+structure Entry (κ ν : Type) where
+  value : Item κ ν
+  index : Int
+  deriving Repr, DecidableEq
+
+abbrev H (κ ν : Type) := Array (Entry κ ν)
+
+/-- `queueHeap.Less(i, j)`: strictly earlier. Out of range (never happens) is `false`. -/
+def less (h : H κ ν) (i j : Nat) : Bool :=
+  match h[i]?, h[j]? with
+  | some a, some b => decide (a.value.time < b.value.time)
+  | _, _ => false
+
+/-- `queueHeap.Swap(i, j)`: exchange the entries and store their new positions in them. -/
+def swap (h : H κ ν) (i j : Nat) : H κ ν :=
+  match h[i]?, h[j]? with
+  | some a, some b => (h.setIfInBounds i { b with index := i }).setIfInBounds j { a with index := j }
+  | _, _ => h
+
+/-- `heap.up(h, j)`; `fuel` bounds the loop (the height of the heap suffices). -/
+def up (h : H κ ν) (j : Nat) : Nat → H κ ν
+  | 0 => h
+  | fuel + 1 =>
+    let i := (j - 1) / 2
+    if i = j || !less h j i then h else up (swap h i j) i fuel
+
+/-- The loop of `heap.down(h, i0, n)`: returns the heap and the final position. -/
+def downLoop (h : H κ ν) (i n : Nat) : Nat → H κ ν × Nat
+  | 0 => (h, i)
+  | fuel + 1 =>
+    let j1 := 2 * i + 1
+    if j1 ≥ n then (h, i) else
+    let j := if j1 + 1 < n && less h (j1 + 1) j1 then j1 + 1 else j1
+    if !less h j i then (h, i) else downLoop (swap h i j) j n fuel
+
+/-- `heap.down(h, i0, n)`: the heap and whether the element moved. -/
+def down (h : H κ ν) (i0 n : Nat) : H κ ν × Bool :=
+  let r := downLoop h i0 n h.size
+  (r.1, decide (r.2 > i0))
+
+/-- `heap.Push(h, x)`: `queueHeap.Push` appends with `index = n`, then `up(n)`. -/
+def push (h : H κ ν) (r : Item κ ν) : H κ ν :=
+  up (h.push { value := r, index := h.size }) h.size (h.size + 1)
+
+/-- `heap.Pop(h)`: swap root and last, `down(0, n)`, then `queueHeap.Pop` removes the last entry. -/
+def popRoot (h : H κ ν) : Option (Item κ ν) × H κ ν :=
+  if h.size = 0 then (none, h) else
+    let n := h.size - 1
+    let h2 := (down (swap h 0 n) 0 n).1
+    (h2.back?.map (·.value), h2.pop)
+
+/-- `heap.Fix(h, i)`. -/
+def fix (h : H κ ν) (i : Nat) : H κ ν :=
+  let r := down h i h.size
+  if r.2 then r.1 else up r.1 i (h.size + 1)
+
+/-- `heap.Remove(h, i)`. -/
+def removeAt (h : H κ ν) (i : Nat) : H κ ν :=
+  let n := h.size - 1
+  let h1 :=
+    if n ≠ i then
+      let r := down (swap h i n) i n
+      if r.2 then r.1 else up r.1 i (h.size + 1)
+    else h
+  h1.pop
+
+/-- `items[key]`: position of the entry with that key. -/
+def find (h : H κ ν) (k : κ) : Option Nat := h.findIdx? (fun e => decide (e.value.key = k))
+
+/-- `queue.Insert(r, true)`. -/
+def insert (h : H κ ν) (r : Item κ ν) : H κ ν :=
+  match find h r.key with
+  | some pos =>
+    match h[pos]? with
+    | some e => fix (h.setIfInBounds pos { e with value := r }) e.index.toNat
+    | none => h
+  | none => push h r
+
+/-- `queue.Peek()`. -/
+def peek (h : H κ ν) : Option (Item κ ν) := h[0]?.map (·.value)
+
+/-- `queue.Pop()`. -/
+def pop (h : H κ ν) : Option (Item κ ν) × H κ ν := popRoot h
+
+/-- `queue.Remove(key)`. -/
+def remove (h : H κ ν) (k : κ) : H κ ν :=
+  match find h k with
+  | some pos =>
+    match h[pos]? with
+    | some e => removeAt h e.index.toNat
+    | none => h
+  | none => h
+
+/-- The live items, in array order. -/
+def items (h : H κ ν) : List (Item κ ν) := h.toList.map (·.value)
+
+end Heap
 
 end Kit.Queue
